@@ -60,18 +60,45 @@ def ser(node, budget):
     return ["n", node.chip[0], node.chip[1], kids]
 
 
+def ser_flat(root, budget=40000):
+    """iterative, for trees too deep for nested JSON: ["flat", [[x, y, parent index, route], ...] in depth-first
+    order (the root has parent -1), [[node index, route, vertex], ...]]; a shared or cyclic structure exceeds
+    the budget"""
+    nodes, leaves = [], []
+    stack = [(root, -1, None)]
+    while stack:
+        node, parent, route = stack.pop()
+        if len(nodes) >= budget:
+            return ["huge"]
+        idx = len(nodes)
+        nodes.append([node.chip[0], node.chip[1], parent, route])
+        todo = []
+        for r, obj in node.children:
+            rr = None if r is None else int(r)
+            if isinstance(obj, RoutingTree):
+                todo.append((obj, idx, rr))
+            else:
+                leaves.append([idx, rr, obj])
+        stack.extend(reversed(todo))
+    return ["flat", nodes, leaves]
+
+
 def ser_safe(node):
     try:
         return ser(node, [700])
     except (Huge, RecursionError):
-        return ["huge"]
+        return ser_flat(node)
 
 
-def run_case(c):
-    m = c["machine"]
-    machine = Machine(m["w"], m["h"],
-                      dead_chips=set(tuple(xy) for xy in m["dead_chips"]),
-                      dead_links=set((x, y, Links(l)) for x, y, l in m["dead_links"]))
+def build_machine(m):
+    return Machine(m["w"], m["h"],
+                   dead_chips=set(tuple(xy) for xy in m["dead_chips"]),
+                   dead_links=set((x, y, Links(l)) for x, y, l in m["dead_links"]))
+
+
+def run_case(c, machine=None):
+    if machine is None:
+        machine = build_machine(c["machine"])
     rnd = Scripted(c["stream"])
     geometry.random = rnd
     rutils.random = rnd
@@ -132,9 +159,33 @@ def run_ner(c):
     return dict(error=None, ner=ser_safe(root), keys=[list(k) for k in lookup], pos_end=rnd.pos)
 
 
+def run_history(c):
+    """one Machine object: route(), in-place edits of its dead_links / dead_chips sets, route() again, ..."""
+    machine = build_machine(c["machine"])
+    outs = []
+    for op in c["steps"]:
+        if op[0] == "route":
+            outs.append(run_case(c, machine))
+        elif op[0] == "dl_add":
+            machine.dead_links.add((op[1][0], op[1][1], Links(op[1][2])))
+        elif op[0] == "dl_discard":
+            machine.dead_links.discard((op[1][0], op[1][1], Links(op[1][2])))
+        elif op[0] == "dl_update":
+            machine.dead_links.update((x, y, Links(l)) for x, y, l in op[1])
+        elif op[0] == "dl_clear":
+            machine.dead_links.clear()
+        elif op[0] == "dc_add":
+            machine.dead_chips.add(tuple(op[1]))
+        elif op[0] == "dc_discard":
+            machine.dead_chips.discard(tuple(op[1]))
+    return dict(steps=outs)
+
+
 def run_any(c):
     if c.get("kind") == "ner":
         return run_ner(c)
+    if c.get("kind") == "history":
+        return run_history(c)
     return run_case(c)
 
 
